@@ -6,6 +6,7 @@
 package main
 
 import (
+	"bytes"
 	"fmt"
 	"sort"
 	"strings"
@@ -82,6 +83,13 @@ type sys struct {
 	attempts int // pull attempts started (dials to origin)
 	seenDial int
 	apiOn    bool
+	// a second stream with its own publisher and subscriber, attached before anything else happens: no
+	// event on the first stream may disturb it
+	byPub   *world.RtmpPeer
+	bySub   *world.RtmpPeer
+	byIDs   map[string]bool // session ids of the bystanders (not counted with the first stream's notifications)
+	bySent  int
+	byHooks int // hook contexts that belong to the bystander stream (created before anything else)
 }
 
 func (s *sys) add(key, f string, a ...interface{}) {
@@ -91,6 +99,7 @@ func (s *sys) add(key, f string, a ...interface{}) {
 func newSys(c cfg) *sys {
 	s := &sys{c: c, w: world.New(world.Conf{"rtsp.enable": true, "_hook": true}), ended: map[int]bool{}}
 	s.w.EnableRelay(nil)
+	s.setupBystander()
 	for _, ev := range c.Prefix {
 		if err := s.Apply(ev); err != nil {
 			s.infra = fmt.Errorf("prefix event %s: %v", ev, err)
@@ -251,7 +260,82 @@ func (s *sys) accept(in *input) {
 	s.accepted = append(s.accepted, in.id)
 }
 
+const byStream = "bystander"
+
+func (s *sys) setupBystander() {
+	var err error
+	if s.byPub, err = s.w.RtmpPublisher("live", byStream); err != nil {
+		s.infra = err
+		return
+	}
+	if s.bySub, err = s.w.RtmpPlayer("live", byStream); err != nil {
+		s.infra = err
+		return
+	}
+	s.byPub.SendMsgs(ref.Msg{Csid: 4, Type: 8, Msid: 1, Payload: []byte{0xaf, 0, 0x12, 0x10}})
+	if err = s.w.Settle(); err != nil {
+		s.infra = err
+		return
+	}
+	s.bySub.Pump()
+	s.byHooks = len(s.w.Hooks)
+	s.byIDs = map[string]bool{}
+	for _, e := range s.w.Notify.Snapshot() {
+		if f := strings.Fields(e); len(f) >= 2 {
+			s.byIDs[f[1]] = true
+		}
+	}
+}
+
+// Apply runs the event on the first stream, then lets the bystander stream send one frame.
 func (s *sys) Apply(ev string) error {
+	if err := s.applyMain(ev); err != nil {
+		return err
+	}
+	if s.byPub == nil {
+		return nil
+	}
+	if s.byPub.Conn.Closed() || s.bySub.Conn.Closed() {
+		s.add("bystander/disconnected", "event %s on stream %q disconnected a session of another stream (publisher closed=%v, subscriber closed=%v)", ev, stream, s.byPub.Conn.Closed(), s.bySub.Conn.Closed())
+		s.byPub = nil
+		return nil
+	}
+	s.bySent++
+	pl := append([]byte{0xaf, 1, 0x21}, aacPayload(10000+s.bySent)...)
+	s.byPub.SendMsgs(ref.Msg{Csid: 4, Type: 8, Msid: 1, Ts: uint32(20 * s.bySent), Payload: pl})
+	if err := s.w.Settle(); err != nil {
+		return err
+	}
+	n := 0
+	for _, m := range s.bySub.Pump() {
+		if m.Type == 8 && len(m.Payload) > 2 && m.Payload[1] == 1 {
+			n++
+			if !bytes.Equal(m.Payload, pl) {
+				s.add("bystander/delivery", "after %s the other stream's subscriber received an audio message that is not the one its publisher just sent", ev)
+			}
+		}
+	}
+	if n != 1 {
+		s.add("bystander/delivery", "after %s the other stream's subscriber received %d messages for the one frame its publisher sent", ev, n)
+	}
+	for _, h := range s.w.Hooks[:s.byHooks] {
+		if _, stops := h.Counts(); stops != 0 {
+			s.add("bystander/outputs", "after %s the other stream's output pipeline was told to stop", ev)
+		}
+	}
+	g := s.w.SM.StatGroup(byStream)
+	if g == nil || g.StatPub.SessionId == "" || len(g.StatSubs) != 1 {
+		s.add("bystander/stat", "after %s the stat API no longer lists the other stream's publisher and subscriber (%+v)", ev, g)
+	}
+	for _, e := range s.w.Notify.Snapshot() {
+		if f := strings.Fields(e); len(f) >= 2 && s.byIDs[f[1]] && strings.HasSuffix(f[0], "_stop") {
+			s.add("bystander/notify", "after %s: %s for a session of the other stream, which is still attached", ev, e)
+		}
+	}
+	return nil
+}
+
+func (s *sys) applyMain(ev string) error {
 	if s.infra != nil {
 		return s.infra
 	}
@@ -472,7 +556,12 @@ func (s *sys) Apply(ev string) error {
 		}
 		s.endCur()
 	}
-	dump := w.Dump()
+	dump := ""
+	for _, l := range strings.Split(w.Dump(), "\n") { // the first stream's group only
+		if strings.HasPrefix(l, "group "+stream+" ") {
+			dump = l
+		}
+	}
 	wantIn := map[string]string{"": "in[rtmp=0 rtsp=0 cust=0 ps=0 pullRtmp=0 pullRtsp=0", "rtmp": "in[rtmp=1 rtsp=0 cust=0 ps=0 pullRtmp=0 pullRtsp=0", "rtsp": "in[rtmp=0 rtsp=1 cust=0 ps=0 pullRtmp=0 pullRtsp=0",
 		"cust": "in[rtmp=0 rtsp=0 cust=1 ps=0 pullRtmp=0 pullRtsp=0", "ps": "in[rtmp=0 rtsp=0 cust=0 ps=1 pullRtmp=0 pullRtsp=0", "pull": "in[rtmp=0 rtsp=0 cust=0 ps=0 pullRtmp=1 pullRtsp=0"}
 	k := ""
@@ -499,10 +588,10 @@ func (s *sys) Apply(ev string) error {
 		}
 	}
 	// ---- outputs: one hook context per accepted input, untouched by foreign events
-	if len(w.Hooks) != len(s.accepted) {
-		s.add("outputs/pipeline-count", "after %s: %d output pipelines (hook contexts) were created for %d accepted inputs", ev, len(w.Hooks), len(s.accepted))
+	if len(w.Hooks)-s.byHooks != len(s.accepted) {
+		s.add("outputs/pipeline-count", "after %s: %d output pipelines (hook contexts) were created for %d accepted inputs", ev, len(w.Hooks)-s.byHooks, len(s.accepted))
 	} else {
-		for i, h := range w.Hooks {
+		for i, h := range w.Hooks[s.byHooks:] {
 			_, stops := h.Counts()
 			want := 0
 			if s.ended[s.accepted[i]] {
@@ -584,7 +673,7 @@ func (s *sys) Apply(ev string) error {
 	order := map[string][]string{}
 	for _, e := range evs {
 		f := strings.Fields(e)
-		if len(f) < 2 {
+		if len(f) < 2 || s.byIDs[f[1]] {
 			continue
 		}
 		if cnt[f[0]] == nil {
